@@ -169,6 +169,25 @@ theorem C13_map_blocks (E : Env α δ) (f : List (PyVal α) → List (String × 
     (fun i hi => hf i (List.mem_range.1 hi)) (fun i hi => harr i (List.mem_range.1 hi)) hdt
   simp [this, Except.map]
 
+/-- The full statement — *whatever* the per-block function returns (also tuples, as `frexp` or
+    `linalg.eig` do), the result is the list of the per-block results — is NOT claimed: it fails on
+    the code as it is (finding `map-blocks-tuple-results`).  `C13_map_blocks` above is the proved part:
+    it needs `harr` (the per-block results are arrays). -/
+def C13_map_blocks_stmt : Prop :=
+  ∀ (α δ : Type) [DecidableEq δ] (E : Env α δ) (f : List (PyVal α) → List (String × PyVal α) → Res α)
+    (bs : List α) (r : α → α), bs ≠ [] → (∀ b ∈ bs, f [PyVal.one b] [] = .ok (r b)) →
+    mapFuncOverBlocks E f [PyVal.blk bs] [] = .ok (.blk (bs.map r))
+
+/-- negation witness: a per-block function whose results are not arrays and cannot be converted
+    (ragged tuples): every per-block call succeeds, yet the mapped call is rejected -/
+theorem C13_map_blocks_tuple_witness : ¬ C13_map_blocks_stmt := by
+  intro h
+  -- values: 0 = an array, 1 = a tuple that `jnp.array` rejects
+  let E : Env Nat Unit := ⟨fun x => x == 0, fun _ => .error .shape, fun _ => ()⟩
+  have := h Nat Unit E (fun _ _ => .ok 1) [0] (fun _ => 1) (by simp) (by simp)
+  revert this
+  decide
+
 /-- converse: whatever block array comes out has `n` blocks, block `i` being `f` applied to
     the `i`-th projections of the arguments -/
 theorem C13_map_blocks_conv (E : Env α δ) (f : List (PyVal α) → List (String × PyVal α) → Res α)
